@@ -6,6 +6,7 @@ import Driver.VmCompile
 import Driver.VmVerify
 import Driver.SimStep
 import Driver.SimGood
+import Driver.Prep
 /-! Driver commands of the Vm area. -/
 namespace Marwood.Driver.Vm
 open Marwood Marwood.Vm
@@ -36,6 +37,7 @@ def handle (cmd : String) (args : List String) : Option String :=
   | "step", args => VmStep.handleStep args
   | "simstep", args => SimStep.handle args
   | "simgood", args => SimGood.handle args
+  | "prepcheck", args => Prep.handle args
   | "errstate", [cap] => do
       let cap ← cap.toNat?
       -- an arbitrary mid-evaluation state with that stack capacity, through the error epilogue
